@@ -79,10 +79,12 @@ GetPlannerData ==
     /\ UNCHANGED <<bound, qid, holds, roadmap, needsClear, solved, alive>>
     /\ lastAct' = [act |-> "GetPlannerData", args |-> <<>>]
 
-(* setup() needs the problem definition (several planners configure themselves from it) *)
+(* setup() needs the problem definition: several planners configure themselves from it and *)
+(* already read its start and goal states, so afterwards they may hold the current query   *)
 Setup ==
-    /\ alive /\ bound # "none"
-    /\ UNCHANGED <<bound, qid, holds, roadmap, needsClear, solved, alive>>
+    /\ alive /\ bound # "none" /\ ~needsClear
+    /\ holds' = holds \cup {Cur(bound)}
+    /\ UNCHANGED <<bound, qid, roadmap, needsClear, solved, alive>>
     /\ lastAct' = [act |-> "Setup", args |-> <<>>]
 
 Destroy ==
